@@ -125,7 +125,8 @@ RBDL_DLLAPI void NonlinearEffects (
   for (unsigned int i = 1; i < model.mBodies.size(); i++) {
     if (model.lambda[i] == 0) {
       model.v[i] = model.v_J[i];
-      model.a[i] = model.X_lambda[i].apply(spatial_gravity);
+      model.c[i] = model.c_J[i] + crossm(model.v[i],model.v_J[i]);
+      model.a[i] = model.X_lambda[i].apply(spatial_gravity) + model.c[i];
     }	else {
       model.v[i] = model.X_lambda[i].apply(model.v[model.lambda[i]]) + model.v_J[i];
       model.c[i] = model.c_J[i] + crossm(model.v[i],model.v_J[i]);
